@@ -787,6 +787,29 @@ def writer_error_scan_rule(P, rep, rid):
             e = f.xexpr(tb.ops[0])
             if any(re.search(r'\b%s\b' % re.escape(nm), e) for nm in names):
                 continue
+            # a local that holds a function of the counter (`unsigned kind = j + BASE; if (kind == ...)`)
+            roots = {arr[0].id} | ({cnt.id} if cnt is not None else set())
+            def from_roots(o, depth=0, seen_=None):
+                seen_ = seen_ if seen_ is not None else set()
+                o = f.strip(o)
+                if o[0] != 'i' or depth > 12 or o[1] in seen_:
+                    return False
+                seen_.add(o[1])
+                i_ = f.insts[o[1]]
+                if i_.op == 'load':
+                    a_ = f.strip(i_.ops[0])
+                    if a_[0] == 'i' and a_[1] in roots:
+                        return True
+                    if a_[0] == 'i' and f.insts[a_[1]].op == 'getelementptr':
+                        return from_roots(f.insts[a_[1]].ops[0], depth + 1, seen_)
+                    if a_[0] == 'i' and f.insts[a_[1]].op == 'alloca':
+                        return any(u.op == 'store' and f.strip(u.ops[1]) == a_ and from_roots(u.ops[0], depth + 1, seen_) for u in f.users.get(a_[1], ()))
+                    return False
+                if i_.op in ('call', 'alloca'):
+                    return i_.op == 'alloca' and i_.id in roots
+                return any(from_roots(x, depth + 1, seen_) for x in i_.ops)
+            if from_roots(tb.ops[0]):
+                continue
             # does it decide whether a counter of the loop is reached?
             incs = [i for i in f.all_insts() if i.block in body and i.op == 'store' and f.inst_of(i.ops[0]) is not None and f.inst_of(i.ops[0]).op == 'add' and f.expr(i.ops[1]).lstrip('&') in ('io_error', 'error', 'silent_error')]
             if any(sum(1 for s_ in tb.succ if f.edge_dominates(tb, s_, i)) == 1 for i in incs):
